@@ -99,6 +99,16 @@ class Obj:
             ev.heap[("attr", SELF, k)] = v
         rs = _feasible_runs(self.prog, g, ev)
         rets = [e.value for r in rs for _, e in r.effects() if e.kind == "ret"]
+        if len(rets) > 1 and all(v in (("c", True), ("c", False)) for v in rets) and len(rets) == len(rs):
+            # a predicate spelt with several `return True / return False`: its value is the condition under which True is returned
+            from . import guards as _G
+            from .sym import mk_bool
+            conds = []
+            for r in rs:
+                v = [e.value for _, e in r.effects() if e.kind == "ret"][-1]
+                if v == ("c", True):
+                    conds.append(_G.conj(r.guards()))
+            rets = [_G.disj(conds)]
         if len(rets) != 1:
             raise AnalysisError("getter %s.%s is not straight-line (%d returns)" % (self.clsname, name, len(rets)))
         # remaining self.<property> reads are resolved recursively (memoised)
